@@ -13,6 +13,7 @@
    float near-ties as ambiguous (DESIGN section 2).  The cut points
    int(i * (span / nbins)) are the `cut` oracle of C06.  No proofs here. *)
 From CNV Require Import Base.Prelude Base.Str Model.IvRow Model.IvCombine Model.Intervals Model.Chromsort.
+From CNV Require Model.Ranges Model.Into.
 From CNV Require Gen.IvDefaults Gen.BinsDefaults.
 
 Definition gpay : Type := (string * string)%type.       (* chromosome, gene *)
@@ -162,3 +163,109 @@ Definition do_target_short (pick : list string -> string) (split : bool) (avg : 
                            (cut : Z -> Z -> Z -> Z) (baits : list grow) : list grow :=
   let t := do_target split avg cut baits in
   set_genes t (map pick (shorten_labels (map gene t))).
+
+(* ---- shorten_labels, exactly --------------------------------------------------
+   `min(filter_names(names), key=len)` over a Python SET returns the first of the
+   shortest names in the set's iteration order (hash order: not a function of the
+   set's contents across processes).  `pick` stands for that choice: it is handed
+   the equally short names and returns one of them.  Everything else in
+   shorten_labels depends on the contents of the sets only. *)
+Definition shortest_names (names : list string) : list string :=
+  let f := filter_names names in
+  match f with
+  | [] => []
+  | x :: _ => filter (fun n => slen n =? min_len (slen x) f) f
+  end.
+
+Definition shortest_name_pick (pick : list string -> string) (names : list string) : string :=
+  strip_db (pick (shortest_names names)).
+
+Fixpoint shorten_go_pick (pick : list string -> string) (curr : list string) (count : nat)
+                         (labels : list string) : list string :=
+  match labels with
+  | [] => repeat (shortest_name_pick pick curr) count
+  | l :: rest =>
+      let next := names_of l in
+      match inter curr next with
+      | [] => repeat (shortest_name_pick pick curr) count ++ shorten_go_pick pick next 1 rest
+      | ov => shorten_go_pick pick (filter_names ov) (S count) rest
+      end
+  end.
+
+Definition shorten_labels_pick (pick : list string -> string) (labels : list string) : list string :=
+  shorten_go_pick pick [] 0 labels.
+
+(* the name the code emits whatever the iteration order, where there is one *)
+Definition shorten_labels_det (labels : list string) : list (option string) :=
+  map (fun c => match c with [x] => Some x | _ => None end) (shorten_labels labels).
+
+(* ---- annotation ---------------------------------------------------------------
+     annotation = tabio.read_auto(annotate)
+     antitarget.compare_chrom_names(tgt_arr, annotation)
+     if len(tgt_arr):
+         tgt_arr["gene"] = list(annotation.into_ranges(tgt_arr, "gene", "-"))
+   through the C07 model of into_ranges (Model/Into.v): the annotation table as the
+   reader delivers it, rows labelled by position; the summary of a string column is
+   join_strings.  The labels are assigned by position (a list), one per bin. *)
+
+(* compare_chrom_names: both name sets, or ValueError (None) when the first is
+   non-empty and disjoint from the second *)
+Definition compare_chrom_names (a b : list grow) : option (list string * list string) :=
+  let ac := chroms_of a in
+  let bc := chroms_of b in
+  match ac with
+  | [] => Some (ac, bc)
+  | _ => if existsb (fun c => mem_string c bc) ac then Some (ac, bc) else None
+  end.
+
+Fixpoint trows_from (i : Z) (t : list grow) : list Ranges.trow :=
+  match t with
+  | [] => []
+  | r :: t' => (chrom r, Ranges.mkRow i (lo r) (hi r)) :: trows_from (i + 1) t'
+  end.
+Definition trows_of (t : list grow) : list Ranges.trow := trows_from 0 t.
+
+Definition gene_at (t : list grow) (i : Z) : string :=
+  match nth_error t (Z.to_nat i) with Some r => gene r | None => EmptyString end.
+
+(* annotation.into_ranges(tgt_arr, "gene", "-"): None = the (empty) destination table itself *)
+Definition annot_values (annot t : list grow) : option (list (option string)) :=
+  Into.into_ranges (trows_of annot) (trows_of t) (gene_at annot)
+                   Gen.BinsDefaults.annotate_default Into.join_strings.
+
+Inductive annot_result :=
+| AnnotRows (rows : list grow)
+| AnnotValueError.
+
+(* an empty bin table is returned as it is; the column assignment raises ValueError unless it
+   is handed one value per row *)
+Definition annotate (annot t : list grow) : annot_result :=
+  match compare_chrom_names t annot with
+  | None => AnnotValueError
+  | Some _ =>
+      match t with
+      | [] => AnnotRows []
+      | _ =>
+          match annot_values annot t with
+          | None => AnnotValueError
+          | Some vals =>
+              if Nat.eqb (length vals) (length t)
+              then AnnotRows (set_genes t (map (fun v => match v with Some g => g | None => Gen.BinsDefaults.annotate_default end) vals))
+              else AnnotValueError
+          end
+      end
+  end.
+
+(* do_target with every option: split, then annotate, then shorten *)
+Definition do_target_full (pick : list string -> string) (split : bool) (avg : Q) (cut : Z -> Z -> Z -> Z)
+                          (annot : option (list grow)) (short : bool) (baits : list grow) : annot_result :=
+  let t := do_target split avg cut baits in
+  let shorten t := if short then set_genes t (shorten_labels_pick pick (map gene t)) else t in
+  match annot with
+  | None => AnnotRows (shorten t)
+  | Some a =>
+      match annotate a t with
+      | AnnotRows t' => AnnotRows (shorten t')
+      | AnnotValueError => AnnotValueError
+      end
+  end.
